@@ -49,9 +49,14 @@ class SubvolumeAccessor(SgzReader):
         return start, step, stop
 
     def _check_subscripts(self, subscript, coords, coord_name):
-        if subscript.start is not None and not coords[0] <= subscript.start < coords[-1] + coords[1] - coords[0]:
+        # An axis may be descending: bounds are compared along the direction of the axis
+        inc = coords[1] - coords[0]
+        sign = -1 if inc < 0 else 1
+        lower = sign * coords[0]
+        upper = sign * (coords[-1] + inc)
+        if subscript.start is not None and not lower <= sign * subscript.start < upper:
             raise IndexError(f"{coord_name} start {subscript.start} out of range. Axes are {self.axes_message}")
-        if subscript.stop is not None and not coords[0] < subscript.stop <= coords[-1] + coords[1] - coords[0]:
+        if subscript.stop is not None and not lower < sign * subscript.stop <= upper:
             raise IndexError(f"{coord_name} stop {subscript.stop} out of range. Axes are {self.axes_message}")
         if subscript.step is not None and not subscript.step % (coords[1] - coords[0]) == 0:
             raise IndexError(f"{coord_name} step {subscript.step} invalid. Axes are {self.axes_message}")
